@@ -303,8 +303,7 @@ def rule_window(ctx):
                   "target is read after its threads were resumed: %s" % ["%s @ %s" % (tg, g.where(bi)) for bi, tg in after])
 
 
-def rule_skip_only_null_sp(ctx):
-    R = "C04/skip-only-null-sp"
+def rule_skip_only_null_sp(ctx, R="C04/skip-only-null-sp"):
     b = ctx.body(R, PD + "::suspend_thread")
     if b is None:
         return
